@@ -88,6 +88,83 @@ def main(a: int, b: int, p: bool) -> int:
     result("t", t)
     return t
 """,
+    "struct_methods_in_loop": """
+@guppy.struct
+class Acc:
+    tot: int
+    cnt: int
+
+    @guppy
+    def add(self: "Acc", d: int) -> "Acc":
+        return Acc(self.tot + d, self.cnt + 1)
+
+    @guppy
+    def mean(self: "Acc") -> int:
+        if self.cnt == 0:
+            return 0
+        return self.tot // self.cnt
+
+    @guppy
+    def __add__(self: "Acc", other: "Acc") -> "Acc":
+        return Acc(self.tot + other.tot, self.cnt + other.cnt)
+
+@guppy
+def main(a: int, b: int, p: bool) -> int:
+    acc = Acc(0, 0)
+    k = 0
+    while k < 4:
+        if p and k == 2:
+            acc = acc + Acc(b, 2)
+        else:
+            acc = acc.add(a + k)
+        k += 1
+    result("tot", acc.tot)
+    result("cnt", acc.cnt)
+    return acc.mean()
+""",
+    "rotation_and_comprehension": """
+@guppy
+def sq(v: int) -> int:
+    return v * v
+
+@guppy
+def main(a: int, b: int, p: bool) -> int:
+    u, v, w = a, b, 7
+    for i in range(3):
+        u, v, w = v, w, u
+        if p:
+            u, v = v, u
+    xs = array(sq(i) + u for i in range(4))
+    ys = array(xs[3 - i] - v for i in range(4))
+    result("xs", xs)
+    result("ys", ys)
+    tot = 0
+    for e in ys:
+        tot += e
+    return tot + w
+""",
+    "struct_array_field_updates": """
+@guppy.struct
+class Box:
+    cells: array[int, 3]
+    tag: int
+
+@guppy
+def poke(bx: Box, i: int, d: int) -> None:
+    bx.cells[i] += d
+
+@guppy
+def main(a: int, b: int, p: bool) -> int:
+    bx = Box(array(a, b, 1), 5)
+    k = 0
+    while k < 5:
+        poke(bx, k % 3, k)
+        if p and k == 3:
+            break
+        k += 1
+    result("cells", bx.cells)
+    return bx.tag + k
+""",
 }
 
 
